@@ -94,7 +94,7 @@ class SentinelTaint:
             cn = call_name(e)
             if isinstance(e.func, ast.Attribute) and not cn.startswith("torch."):
                 m = e.func.attr
-                if m in NOT_VALUE:
+                if m in NOT_VALUE or m in ("softmax", "exp", "sigmoid", "tanh", "exp_", "isfinite", "relu"):
                     return False
                 if m in ("topk", "sort") or (m in ("max", "min") and e.args):
                     if slot == (1,):
@@ -107,6 +107,9 @@ class SentinelTaint:
             if cn in FUNCS_VALUE or cn.startswith("torch."):
                 if cn in ("torch.arange", "torch.zeros", "torch.ones", "torch.empty", "torch.nonzero",
                           "torch.nn.functional.one_hot"):
+                    return False
+                # functions that map the -inf sentinel to a finite value consume it
+                if cn.split(".")[-1] in ("softmax", "exp", "sigmoid", "tanh", "isfinite", "isinf", "isnan", "relu"):
                     return False
                 args = list(e.args)
                 if cn == "torch.where":
